@@ -27,7 +27,7 @@ RULE += (
     "task already on the scheduler's stack; a third of the flushing programs get one more run in which the "
     "options are switched on at the first scheduler flush instead of before the run. In one program in five "
     "every task's first argument prints with per-cent signs (names and dumps are built from repr() of the "
-    "arguments)."
+    "arguments). In one program in three tasks call profiler.flush() after each synchronous call they make."
 )
 ASSUMPTIONS = [
     "programs whose default-option trace is not reproducible (priority ties) are skipped and counted",
